@@ -47,20 +47,30 @@ func (m *MethodScope) AddVar(vr *types.Var, suffix string) *Var {
 }
 
 func (m *MethodScope) resolveVarNameConflict(suggested string) string {
-	for n := 1; ; n++ {
-		_, ok := m.searchVar(suggested + strconv.Itoa(n))
-		if ok {
-			continue
-		}
-
-		if n == 1 {
-			conflict, _ := m.searchVar(suggested)
-			conflict.Name += "1"
-			m.conflicted[suggested] = true
+	// next returns the first numbered variant of the suggested name which
+	// is neither used by another variable nor by an imported package.
+	n := 0
+	next := func() string {
+		for {
 			n++
+			name := suggested + strconv.Itoa(n)
+			if _, ok := m.searchVar(name); ok {
+				continue
+			}
+			if _, ok := m.registry.searchImport(name); ok {
+				continue
+			}
+			return name
 		}
-		return suggested + strconv.Itoa(n)
 	}
+
+	// On the first conflict the variable holding the plain name gets
+	// numbered as well.
+	if conflict, ok := m.searchVar(suggested); ok {
+		conflict.Name = next()
+		m.conflicted[suggested] = true
+	}
+	return next()
 }
 
 func (m MethodScope) searchVar(name string) (*Var, bool) {
